@@ -503,7 +503,7 @@ def canon_run(plan, r):
     out = []
     def strip(x):
         if isinstance(x, dict):
-            return {k: strip(v) for k, v in x.items() if k not in ("h", "h2", "hs", "ho", "hk", "hw", "hu", "hb", "n", "t", "p", "e", "op", "edges", "files", "slot", "path", "serial", "utc", "cap", "fsn", "ny")}
+            return {k: strip(v) for k, v in x.items() if k not in ("h", "h2", "hs", "ho", "hk", "hw", "hu", "hb", "n", "t", "p", "e", "op", "edges", "files", "slot", "path", "serial", "utc", "cap", "fsn", "ny", "wmax", "ym")}
         if isinstance(x, list): return [strip(v) for v in x]
         return x
     for tid, k, op, ret in H.walk(plan, r):
